@@ -396,6 +396,24 @@ def ledger_rows_case(ctx, n):
         if [tuple(r) for r in got] != exp_sel:
             ctx.violation('c01.has_account_filter', f'{name} has_account("{pat}") selects {len(got)} rows, expected {len(exp_sel)}',
                           {'pattern': pat, 'ledger': led.text})
+    # (a2) the functions of the row's own position against the directives (zero units and zero costs included: a zero is no NULL)
+    from beancount.core import convert as _convert
+    try:
+        _, _, prow = engine.run(conn, 'SELECT units(position) AS u, cost(position) AS c, number AS n, currency AS cur, abs(number) AS a, number(units(position)) AS nu, '
+                                      'currency(units(position)) AS cu, units(position) IS NULL AS un, neg(units(position)) AS ng')
+    except Exception as exc:  # noqa: BLE001
+        ctx.violation(f'c01.ledger_rows_raised.{monitors.classify_exception(exc)}', f'position functions: {exc!r}', {'ledger': led.text})
+        return
+    flat = [p for t in txns for p in t.postings]
+    ctx.count('obs.ledger_position_function_rows', len(flat))
+    ctx.count('obs.ledger_zero_unit_postings', sum(1 for p in flat if p.units.number == 0))
+    for i, (p, r) in enumerate(zip(flat, prow)):
+        exp = (p.units, _convert.get_cost(p), p.units.number, p.units.currency, abs(p.units.number), p.units.number, p.units.currency, False, -p.units)
+        if tuple(r) != exp:
+            k = next(j for j, (a, b) in enumerate(zip(r, exp)) if a != b)
+            ctx.violation('c01.ledger_position_function', f'posting {i} ({p.account} {p.units}): {["units(position)", "cost(position)", "number", "currency", "abs(number)", "number(units(position))", "currency(units(position))", "units(position) IS NULL", "neg(units(position))"][k]} '
+                          f'= {show(r[k])}, the directive gives {show(exp[k])}', {'ledger': led.text})
+            break
     # (b) isolation
     targets = [_fill(rng, t) for t in rng.sample(ROW_TARGETS, rng.randint(2, 6))]
     cond = _fill(rng, rng.choice(ROW_CONDITIONS)) if rng.random() < 0.5 else None
